@@ -390,11 +390,23 @@ pub fn generate(prop: &str, thorough: bool, rng: &mut Rng) -> Case {
                 cfg.insert("live_corrupt".into(), 1);
             }
             let k = rng.below(keys as usize) as u64;
-            // prelude: sometimes the key is already on disk (the disk lookup then hits)
-            let mut prelude = vec![];
+            // the round's key is advised on-disk in a third of the runs (fetched and inserted entries are then disk-only)
             if rng.chance(1, 3) {
-                prelude.push(Op::Insert { k, ver: 0, w: 1, loc: 2, hold: false });
-                prelude.push(Op::Wait);
+                cfg.insert("ondisk_key".into(), k as i64 + 1);
+            }
+            // prelude: sometimes the key is already on disk (the disk lookup then hits), sometimes it sits in the disk
+            // tier's write queue with flushing held for the whole round (the disk lookup then yields a queued piece)
+            let mut prelude = vec![];
+            match rng.below(5) {
+                0 | 1 => {
+                    prelude.push(Op::Insert { k, ver: 0, w: 1, loc: 2, hold: false });
+                    prelude.push(Op::Wait);
+                }
+                2 => {
+                    prelude.push(Op::Ctl { what: 13, arg: 1 });
+                    prelude.push(Op::Insert { k, ver: 0, w: 1, loc: 2, hold: false });
+                }
+                _ => {}
             }
             clients.push(prelude);
             let callers = 2 + rng.below(4);
@@ -426,6 +438,11 @@ pub fn generate(prop: &str, thorough: bool, rng: &mut Rng) -> Case {
                 ops.push(if c11 || rng.chance(1, 2) { Op::Insert { k, ver: 0, w: 1, loc: 0, hold: false } } else { Op::Remove { k } });
                 if rng.chance(1, 2) {
                     ops.push(Op::Get { k, hold: false });
+                }
+                // second round: the key leaves again and a new fetch round starts while the first may still be resolving
+                if c11 && rng.chance(1, 3) {
+                    ops.push(Op::Remove { k });
+                    ops.push(Op::Fetch { k, ver: 0, w: 1, yields: rng.below(3) as u8, fail: false, hold: false });
                 }
                 clients.push(ops);
             }
